@@ -9,6 +9,7 @@ import asyncio
 import concurrent.futures as cf
 import contextvars
 import enum
+import os
 import typing as t
 
 
@@ -136,11 +137,12 @@ def _begin(name: str, kw: t.Mapping, rid: t.Optional[int] = None):
     i = w.count.get((rid, name), 0)
     w.count[(rid, name)] = i + 1
     w.log.append(('start', rid, name, i, kw, w.now()))
+    _body_log(name)
     return w, rid, i, kw
 
 
-def _finish(w: World, rid: int, name: str, i: int, kw: dict, node_self: t.Any):
-    oc = w.outcome_token(rid, name, i)
+def _finish(w: World, rid: int, name: str, i: int, kw: dict, node_self: t.Any, fixed: t.Optional[str] = None):
+    oc = fixed if fixed is not None else w.outcome_token(rid, name, i)
     w.log.append(('end', rid, name, i, oc, w.now()))
     if oc == 'ok':
         return prov(name, kw)
@@ -177,7 +179,9 @@ def pure_value(name: str, kw: t.Mapping, oc: str, node_self: t.Any, i: int = 0):
     raise AssertionError(oc)
 
 
-async def abody(name: str, node_self: t.Any, kw: t.Mapping):
+async def abody(name: str, node_self: t.Any, kw: t.Mapping, fixed: t.Optional[str] = None):
+    if CUR is None:
+        return pure_value(name, kw, fixed or 'ok', node_self)
     w, rid, i, kw = _begin(name, kw)
     if w.gate_async:
         loop = asyncio.get_running_loop()
@@ -188,18 +192,33 @@ async def abody(name: str, node_self: t.Any, kw: t.Mapping):
         except asyncio.CancelledError:
             w.log.append(('cancelled', rid, name, i))
             raise
-    return _finish(w, rid, name, i, kw, node_self)
+    return _finish(w, rid, name, i, kw, node_self, fixed)
 
 
-def sbody(name: str, node_self: t.Any, kw: t.Mapping):
+MAIN_PID = os.getpid()
+REAL_POOLS = False   # set by the real-pool conformance subprocess (mc.props.c17_sub)
+
+
+def sbody(name: str, node_self: t.Any, kw: t.Mapping, fixed: t.Optional[str] = None):
     w = CUR
-    if w is not None and w.sync_ctx is not None:
+    if w is None or (REAL_POOLS and os.getpid() != MAIN_PID):
+        # real process pool (conformance pass): no shared World in the worker process
+        _body_log(name)
+        return pure_value(name, kw, fixed or 'ok', node_self)
+    if w.sync_ctx is not None:
         rid, nm, i, kw2 = w.sync_ctx
         w.sync_ctx = None
         assert nm == name
-        return _finish(w, rid, name, i, kw2, node_self)
+        return _finish(w, rid, name, i, kw2, node_self, fixed)
     w, rid, i, kw = _begin(name, kw)
-    return _finish(w, rid, name, i, kw, node_self)
+    return _finish(w, rid, name, i, kw, node_self, fixed)
+
+
+def _body_log(name: str) -> None:
+    path = os.environ.get('MC_BODY_LOG')
+    if path:
+        with open(path, 'a') as f:
+            f.write(name + '\n')
 
 
 def default(name: str, kw: t.Mapping):
